@@ -328,6 +328,22 @@ class Folder:
             for v in node.values:
                 if isinstance(v, ast.Constant):
                     parts.append(str(v.value))
+                elif isinstance(v, ast.FormattedValue):
+                    val = ev(v.value)
+                    if val is UNKNOWN or isinstance(val, (ClassRef, FuncRef, Instance)):
+                        return UNKNOWN
+                    spec = ""
+                    if v.format_spec is not None:
+                        spec = ev(v.format_spec)
+                        if not isinstance(spec, str):
+                            return UNKNOWN
+                    if v.conversion == ord("r"):
+                        val = repr(val)
+                    elif v.conversion == ord("s"):
+                        val = str(val)
+                    elif v.conversion == ord("a"):
+                        val = ascii(val)
+                    parts.append(format(val, spec))
                 else:
                     return UNKNOWN
             return "".join(parts)
@@ -502,7 +518,7 @@ class Folder:
                 return list(r) if meth in ("items", "keys", "values") else r
             if isinstance(recv, (str, bytes)) and meth in (
                 "lower", "upper", "join", "encode", "decode", "replace", "startswith", "endswith", "strip", "split", "hex", "isdigit", "format", "title",
-                "rsplit", "partition", "rpartition", "lstrip", "rstrip", "isnumeric", "isdecimal", "find", "rfind", "count",
+                "rsplit", "partition", "rpartition", "lstrip", "rstrip", "isnumeric", "isdecimal", "find", "rfind", "count", "removeprefix", "removesuffix", "zfill", "isalpha", "isupper", "islower",
             ):
                 return getattr(recv, meth)(*args, **kwargs)
             if isinstance(recv, (list, tuple)) and meth in ("index", "count"):
